@@ -139,7 +139,7 @@ def _frames(ctx, rng):
             for _ in range(1 if quick else 4):
                 ln = rng.choice([0, 1, 2, 3, 8, 15, 16, 19, 21, 22, 30])
                 yield "id-type", _rebuild(bytes([rid]) + rng.randbytes(ln), ft, rng.choice(["crc", "sum"]))
-    for _ in range(300 if quick else 150000):
+    for _ in range(300 if quick else 450000):
         rid = rng.choice([0xC0, 0xC1, 0xB5, 0xB0, 0xB1, 0xA0, 0xA1, rng.randrange(256)])
         yield "random-body", _rebuild(bytes([rid]) + rng.randbytes(rng.randint(0, 60)), rng.choice([2, 3, 4, 5, 6]), rng.choice(["crc", "sum"]))
 
